@@ -11,6 +11,7 @@ git -C /repo worktree add -q --detach $WT ${BASE:-4ec40cd} || exit 9
 cd $WT
 # demos written by the agents put their own worktree on sys.path: point them at this one
 sed "s#/tmp/wt/[A-Za-z0-9_]*#$WT#g" $DEMO > $WT/_demo.py
+for extra in $SRC/*.py; do case "$(basename $extra)" in demo*.py) ;; *) sed "s#/tmp/wt/[A-Za-z0-9_]*#$WT#g" $extra > $WT/$(basename $extra); cp $extra $D/ ;; esac; done
 run_demo() { if grep -q "def test_" $WT/_demo.py && ! grep -q "__main__" $WT/_demo.py; then timeout 1500 /venv/bin/python -m pytest -q -p no:cacheprovider _demo.py >/dev/null 2>&1; else timeout 1500 /venv/bin/python _demo.py >/dev/null 2>&1; fi; echo $?; }
 CLEAN=$(run_demo)
 git apply $D/patch.diff || { echo "{\"id\":\"$ID\",\"error\":\"patch does not apply\"}" > $D/confirm.json; git -C /repo worktree remove --force $WT; exit 9; }
